@@ -12,7 +12,9 @@
          is not a complete bin packing)
       7. reclaim / preempt progress in the interchangeable class
       8. the signature shortcut is not sound: witnesses
-      9. non-vacuity examples *)
+      9. non-vacuity examples
+     10. the failed representatives are per queue: a skip is always on account
+         of a failed job of the skipped job's own queue *)
 Set Default Timeout 60.
 From Coq Require Import List ZArith PArith Bool Lia ZifyBool Permutation.
 From KaiV Require Import Model.Res Model.Status Model.AMap Model.Node Model.NodeSpec Proofs.Node.
@@ -1334,4 +1336,242 @@ Proof.
   split; [reflexivity|]. split; [|vm_compute; reflexivity].
   split; [reflexivity|]. split; [reflexivity|]. split; [reflexivity|].
   exists (mkSN 1 0 0). split; [left; reflexivity|]. split; [reflexivity|]. cbn. lia.
+Qed.
+
+(** * 10. The failed representatives are kept per queue
+
+    reclaim.go / preempt.go: [smallestFailedJobsByQueue[job.Queue]].  Every
+    representative a popped job is compared with is a job of ITS OWN queue that
+    was popped earlier in the same run of the action, was not skipped itself,
+    and whose attempt failed in the state in which it was popped.  Hence a job
+    is never skipped on account of a job of another queue, and the first job
+    of a queue is never skipped - whatever happened to the other queues. *)
+
+Section PerQueue.
+  Variable pending : pjob -> list sreq.
+  (** "was attempted at its turn and failed", for the loop at hand *)
+  Variable failed_at : list pjob -> pjob -> Prop.
+
+  (** where every representative comes from *)
+  Definition reps_origin (done : list pjob) (m : qreps) : Prop :=
+    forall q key rid rp, rep_find key (qrep_find q m) = Some (rid, rp) ->
+      exists b1 r b2, done = b1 ++ r :: b2
+        /\ pj_queue r = q /\ pj_sig r = key /\ pj_id r = rid /\ pending r = rp /\ failed_at b1 r.
+
+  Lemma reps_origin_nil : reps_origin [] [].
+  Proof. intros q key rid rp H. discriminate. Qed.
+
+  Lemma reps_origin_extend done m x : reps_origin done m -> reps_origin (done ++ [x]) m.
+  Proof.
+    intros R q key rid rp H. destruct (R _ _ _ _ H) as (b1 & r & b2 & E & T).
+    exists b1, r, (b2 ++ [x]). split; [|exact T]. rewrite E, <- app_assoc. reflexivity.
+  Qed.
+
+  Lemma reps_origin_record done m x :
+    reps_origin done m -> failed_at done x -> reps_origin (done ++ [x]) (record_failure pending m x).
+  Proof.
+    intros R F q key rid rp. unfold record_failure. rewrite qrep_find_set.
+    destruct (Pos.eqb q (pj_queue x)) eqn:E; [|apply reps_origin_extend, R].
+    apply Pos.eqb_eq in E. subst q. unfold update_representative.
+    assert (New : rep_find key (rep_set (pj_sig x) (pj_id x, pending x) (qrep_find (pj_queue x) m)) = Some (rid, rp) ->
+                  exists b1 r b2, done ++ [x] = b1 ++ r :: b2
+                    /\ pj_queue r = pj_queue x /\ pj_sig r = key /\ pj_id r = rid /\ pending r = rp /\ failed_at b1 r).
+    { rewrite rep_find_set. destruct (Pos.eqb key (pj_sig x)) eqn:E2; [|apply reps_origin_extend, R].
+      apply Pos.eqb_eq in E2. intros H. injection H as <- <-. exists done, x, []. repeat split; auto. }
+    destruct (rep_find (pj_sig x) (qrep_find (pj_queue x) m)) as [[rid0 rp0]|]; [|exact New].
+    destruct (footprint_smaller (pending x) rp0); [exact New|apply reps_origin_extend, R].
+  Qed.
+
+  (** what a skip means *)
+  Lemma skipped_inv use_sigs m p :
+    skipped use_sigs pending m p = true ->
+    use_sigs = true
+    /\ exists rid rp, rep_find (pj_sig p) (qrep_find (pj_queue p) m) = Some (rid, rp)
+                      /\ job_easier (pending p) rp = false.
+  Proof.
+    unfold skipped, is_easier_to_schedule. destruct use_sigs; [|discriminate]. cbn [andb].
+    destruct (rep_find (pj_sig p) (qrep_find (pj_queue p) m)) as [[rid rp]|]; [|discriminate].
+    cbn [fst]. intros H. apply negb_true_iff in H. split; [reflexivity|]. exists rid, rp. split; [reflexivity|exact H].
+  Qed.
+
+  Lemma skipped_origin use_sigs done m p :
+    reps_origin done m -> skipped use_sigs pending m p = true ->
+    exists b1 r b2, done = b1 ++ r :: b2
+      /\ pj_queue r = pj_queue p /\ pj_sig r = pj_sig p /\ failed_at b1 r
+      /\ job_easier (pending p) (pending r) = false.
+  Proof.
+    intros R S. destruct (skipped_inv _ _ _ S) as (_ & rid & rp & E & J).
+    destruct (R _ _ _ _ E) as (b1 & r & b2 & D & Q & K & _ & P & F). subst rp.
+    exists b1, r, b2. repeat split; assumption.
+  Qed.
+End PerQueue.
+
+Section PerQueueLoops.
+  Variable vfilter : pjob -> rjob -> bool.
+  Variable sfilter : vstate -> pjob -> list rjob -> bool.
+  Variable valid : vstate -> pjob -> list rjob -> bool.
+  Variable ahead : vstate -> pjob -> list rjob -> nat.
+  Variable use_sigs : bool.
+  Variable pending : pjob -> list sreq.
+  Variable can_reclaim : vstate -> pjob -> bool.
+  Variable np_gate : vstate -> pjob -> bool.
+  Variable st0 : vstate.
+
+  Notation pstep := (preempt_step vfilter sfilter valid ahead use_sigs pending np_gate).
+  Notation rstep := (reclaim_step vfilter sfilter valid ahead use_sigs pending can_reclaim).
+
+  (** the job was popped after [b1], was not skipped, and its attempt failed *)
+  Definition preempt_failed_at (b1 : list pjob) (r : pjob) : Prop :=
+    let s1 := fold_left pstep b1 (st0, []) in
+    skipped use_sigs pending (snd s1) r = false
+    /\ preempt_try vfilter sfilter valid ahead np_gate (fst s1) r = None.
+  Definition reclaim_failed_at (b1 : list pjob) (r : pjob) : Prop :=
+    let s1 := fold_left rstep b1 (st0, []) in
+    can_reclaim (fst s1) r = true /\ skipped use_sigs pending (snd s1) r = false
+    /\ reclaim_try vfilter sfilter valid ahead (fst s1) r = None.
+
+  Lemma preempt_reps_origin before :
+    reps_origin pending preempt_failed_at before (snd (fold_left pstep before (st0, []))).
+  Proof.
+    induction before as [|x l IH] using rev_ind; [apply reps_origin_nil|].
+    rewrite fold_left_app. cbn [fold_left].
+    destruct (fold_left pstep l (st0, [])) as [st m] eqn:E. cbn [snd] in IH.
+    unfold Signatures.preempt_step.
+    destruct (skipped use_sigs pending m x) eqn:S; [cbn [snd]; apply reps_origin_extend, IH|].
+    destruct (preempt_try vfilter sfilter valid ahead np_gate st x) as [st'|] eqn:T; cbn [snd];
+      [apply reps_origin_extend, IH|].
+    apply reps_origin_record; [exact IH|]. unfold preempt_failed_at. cbv zeta. unfold qreps in *. rewrite E.
+    cbn [fst snd]. split; assumption.
+  Qed.
+
+  Lemma reclaim_reps_origin before :
+    reps_origin pending reclaim_failed_at before (snd (fold_left rstep before (st0, []))).
+  Proof.
+    induction before as [|x l IH] using rev_ind; [apply reps_origin_nil|].
+    rewrite fold_left_app. cbn [fold_left].
+    destruct (fold_left rstep l (st0, [])) as [st m] eqn:E. cbn [snd] in IH.
+    unfold Signatures.reclaim_step.
+    destruct (can_reclaim st x) eqn:C; [|cbn [snd]; apply reps_origin_extend, IH].
+    destruct (skipped use_sigs pending m x) eqn:S; [cbn [snd]; apply reps_origin_extend, IH|].
+    destruct (reclaim_try vfilter sfilter valid ahead st x) as [st'|] eqn:T; cbn [snd];
+      [apply reps_origin_extend, IH|].
+    apply reps_origin_record; [exact IH|]. unfold reclaim_failed_at. cbv zeta. unfold qreps in *. rewrite E.
+    cbn [fst snd]. repeat split; assumption.
+  Qed.
+
+  (** a skip is always on account of a failed job of the skipped job's own queue *)
+  Theorem preempt_skip_own_queue before p :
+    let s := fold_left pstep before (st0, []) in
+    skipped use_sigs pending (snd s) p = true ->
+    exists b1 r b2, before = b1 ++ r :: b2
+      /\ pj_queue r = pj_queue p /\ pj_sig r = pj_sig p /\ preempt_failed_at b1 r
+      /\ job_easier (pending p) (pending r) = false.
+  Proof. intros s S. exact (skipped_origin pending _ _ _ _ _ (preempt_reps_origin before) S). Qed.
+
+  Theorem reclaim_skip_own_queue before p :
+    let s := fold_left rstep before (st0, []) in
+    skipped use_sigs pending (snd s) p = true ->
+    exists b1 r b2, before = b1 ++ r :: b2
+      /\ pj_queue r = pj_queue p /\ pj_sig r = pj_sig p /\ reclaim_failed_at b1 r
+      /\ job_easier (pending p) (pending r) = false.
+  Proof. intros s S. exact (skipped_origin pending _ _ _ _ _ (reclaim_reps_origin before) S). Qed.
+
+  (** no job of the queue of [p] with the key of [p] was popped before: [p] is not skipped *)
+  Definition other_queue_or_key (p r : pjob) : Prop := pj_queue r <> pj_queue p \/ pj_sig r <> pj_sig p.
+
+  Lemma preempt_first_of_queue_not_skipped before p :
+    Forall (other_queue_or_key p) before ->
+    skipped use_sigs pending (snd (fold_left pstep before (st0, []))) p = false.
+  Proof.
+    intros F. destruct (skipped use_sigs pending _ p) eqn:S; [|reflexivity]. exfalso.
+    destruct (preempt_skip_own_queue before p S) as (b1 & r & b2 & E & Q & K & _).
+    rewrite Forall_forall in F. destruct (F r) as [H|H]; [rewrite E; apply in_elt|congruence|congruence].
+  Qed.
+  Lemma reclaim_first_of_queue_not_skipped before p :
+    Forall (other_queue_or_key p) before ->
+    skipped use_sigs pending (snd (fold_left rstep before (st0, []))) p = false.
+  Proof.
+    intros F. destruct (skipped use_sigs pending _ p) eqn:S; [|reflexivity]. exfalso.
+    destruct (reclaim_skip_own_queue before p S) as (b1 & r & b2 & E & Q & K & _).
+    rewrite Forall_forall in F. destruct (F r) as [H|H]; [rewrite E; apply in_elt|congruence|congruence].
+  Qed.
+
+  (** progress without a hypothesis on the shortcut: the first job of its queue
+      (with its key) makes progress whatever happened to the jobs of the other
+      queues popped before it *)
+  Theorem preempt_progress_across_queues before p after pre v post :
+    Forall (other_queue_or_key p) before ->
+    let s := fold_left pstep before (st0, []) in
+    np_gate (fst s) p = true ->
+    preempt_victims vfilter (fst s) p = pre ++ v :: post ->
+    scenario_good sfilter valid ahead (fst s) p (pre ++ [v]) v ->
+    exists cm, In cm (vs_log (fst (preempt_action vfilter sfilter valid ahead use_sigs pending np_gate st0
+                                                  (before ++ p :: after))))
+               /\ cm_job cm = pj_id p /\ cm_evicted cm <> [].
+  Proof.
+    intros F s G V SG.
+    exact (preempt_action_progress vfilter sfilter valid ahead use_sigs pending np_gate st0 before p after pre v post
+             G (preempt_first_of_queue_not_skipped before p F) V SG).
+  Qed.
+
+  Theorem reclaim_progress_across_queues before p after pre v post :
+    Forall (other_queue_or_key p) before ->
+    let s := fold_left rstep before (st0, []) in
+    can_reclaim (fst s) p = true ->
+    reclaim_victims vfilter (fst s) p = pre ++ v :: post ->
+    scenario_good sfilter valid ahead (fst s) p (pre ++ [v]) v ->
+    exists cm, In cm (vs_log (fst (reclaim_action vfilter sfilter valid ahead use_sigs pending can_reclaim st0
+                                                  (before ++ p :: after))))
+               /\ cm_job cm = pj_id p /\ cm_evicted cm <> [].
+  Proof.
+    intros F s G V SG.
+    exact (reclaim_action_progress vfilter sfilter valid ahead use_sigs pending can_reclaim st0 before p after pre v post
+             G (reclaim_first_of_queue_not_skipped before p F) V SG).
+  Qed.
+End PerQueueLoops.
+
+(** ** Non-vacuity with two queues, and what ONE set of representatives for
+    the whole action (the structure of the consolidation action) would do on
+    the same input *)
+
+(** two one-unit nodes; queue 1 runs a job of priority 75, queue 2 one of
+    priority 50; each queue has an identical pending job of priority 75 (same
+    key, same pod).  The job of queue 1 has no victim and fails; the job of
+    queue 2 is popped after it. *)
+Definition q2_st : vstate := mkVS [mkSN 1 0 0; mkSN 2 0 0] [mkRJ 10 1 75 true 1; mkRJ 11 2 50 true 2] [].
+Definition q2_blocked : pjob := mkPJ 1 1 75 true 7.
+Definition q2_victim : pjob := mkPJ 2 2 75 true 7.
+
+(** the loop with one representative set for all queues: every job is filed under queue 1 *)
+Definition shared_skipped (pending : pjob -> list sreq) (m : qreps) (p : pjob) : bool :=
+  skipped true pending m (mkPJ (pj_id p) 1 (pj_prio p) (pj_preempt p) (pj_sig p)).
+Definition shared_record (pending : pjob -> list sreq) (m : qreps) (p : pjob) : qreps :=
+  record_failure pending m (mkPJ (pj_id p) 1 (pj_prio p) (pj_preempt p) (pj_sig p)).
+Definition preempt_step_shared vfilter sfilter valid ahead pending np_gate (s : vstate * qreps) (p : pjob) : vstate * qreps :=
+  let (st, m) := s in
+  if shared_skipped pending m p then s
+  else match preempt_try vfilter sfilter valid ahead np_gate st p with
+       | Some st' => (st', m)
+       | None => (st, shared_record pending m p)
+       end.
+
+Lemma q2_nonvacuous :
+  Forall (other_queue_or_key q2_victim) [q2_blocked]
+  /\ preempt_failed_at w_vfilter w_true3 w_true3 w_ahead true w_pending w_np_gate q2_st [] q2_blocked
+  /\ (let s := fold_left (preempt_step w_vfilter w_true3 w_true3 w_ahead true w_pending w_np_gate) [q2_blocked] (q2_st, []) in
+      snd s = [(1%positive, [(7%positive, (1%positive, [w_unit]))])]
+      /\ w_np_gate (fst s) q2_victim = true
+      /\ preempt_victims w_vfilter (fst s) q2_victim = [] ++ mkRJ 11 2 50 true 2 :: []
+      /\ scenario_good w_true3 w_true3 w_ahead (fst s) q2_victim ([] ++ [mkRJ 11 2 50 true 2]) (mkRJ 11 2 50 true 2))
+  /\ vs_log (fst (preempt_action w_vfilter w_true3 w_true3 w_ahead true w_pending w_np_gate q2_st [q2_blocked; q2_victim]))
+     = [mkCommit 2 [11%positive] 2]
+  /\ vs_log (fst (fold_left (preempt_step_shared w_vfilter w_true3 w_true3 w_ahead w_pending w_np_gate)
+                            [q2_blocked; q2_victim] (q2_st, []))) = [].
+Proof.
+  split; [constructor; [left; cbn; discriminate|constructor]|].
+  split; [split; vm_compute; reflexivity|].
+  split; [|split; vm_compute; reflexivity].
+  cbv zeta. split; [vm_compute; reflexivity|]. split; [reflexivity|]. split; [vm_compute; reflexivity|].
+  split; [reflexivity|]. split; [reflexivity|]. split; [reflexivity|].
+  exists (mkSN 2 0 0). split; [right; left; reflexivity|]. split; [reflexivity|]. cbn. lia.
 Qed.
